@@ -24,10 +24,10 @@ def main():
     for pid, c in sorted(CHECKS.items()):
         checks.append({
             "property_id": pid,
-            "quick_cmd": f"python3 tools/check.py {pid} --tier quick",
-            "thorough_cmd": f"python3 tools/check.py {pid} --tier thorough",
+            "quick_cmd": f"python3 /verif/tools/check.py {pid} --tier quick",
+            "thorough_cmd": f"python3 /verif/tools/check.py {pid} --tier thorough",
             "evidence_file": f"/verif/evidence/{pid}.json",
-            "replay_cmd_template": f"python3 tools/check.py {pid} --replay {{path}}",
+            "replay_cmd_template": f"python3 /verif/tools/check.py {pid} --replay {{path}}",
             "engine": "lean4+correspondence",
             "level_claimed": {"category": "proof", "text": c["text"], "design_ref": c["design"]},
             "level_note": c["note"],
